@@ -42,6 +42,8 @@ func verifShare() libshare.Share {
 	return sh
 }
 
+func verifNsForCID() libshare.Namespace { return libshare.MustNewV0Namespace([]byte("c10")) }
+
 func verifDecodeErr() error {
 	if verifDecodes {
 		return nil
